@@ -206,6 +206,35 @@ def handle (op : String) (args : List PyVal) : Option (List PyVal) :=
         (fun vs => (Gen.Encodings.constMaterialize e.length vs).getD []) g ⟨[e.values.reverse, e.values]⟩ 1
       pure [.list r.1, .list r.2]
     | _ => none
+  -- two columns over ONE input array on the heap model (`Enc.twinSession`): build both, apply `f` in place to the stored
+  -- values of the first, expand both, read the input again -- with the origin of the stored values as read off the
+  -- constructor in the source (`Gen.Encodings.*StoredOrigin`).  Answer: [expansion of the first, expansion of the
+  -- untouched second, the input at the end]
+  | "twin", [.str enc, .str f, .list xs, d] => do
+    let g : PyVal → PyVal := fun v => (applyF f v).getD v
+    let h : Heap PyVal := ⟨[xs.reverse, xs]⟩
+    match enc with
+    | "rle" =>
+      let e := rleEncode (pyEq i2fNative) xs
+      let _ ← e.values.mapM (applyF f)
+      let r := twinSession Gen.Encodings.rleStoredOrigin (fun ys => (rleEncode (pyEq i2fNative) ys).values)
+        (fun vs => (Gen.Encodings.rleMaterialize vs e.lengths).getD []) g h 1
+      pure [.list r.1, .list r.2.1, .list r.2.2]
+    | "dict" =>
+      if xs.any isNull && xs.length ≥ 2 then none
+      else
+        let e := dictEncode pyLe xs
+        let _ ← e.values.mapM (applyF f)
+        let r := twinSession Gen.Encodings.dictStoredOrigin (fun ys => (dictEncode pyLe ys).values)
+          (fun vs => (Gen.Encodings.dictMaterialize vs e.codes).getD []) g h 1
+        pure [.list r.1, .list r.2.1, .list r.2.2]
+    | "sparse" =>
+      let e := sparseEncode (pyNe i2fNative) d xs
+      let _ ← e.values.mapM (applyF f)
+      let r := twinSession Gen.Encodings.sparseStoredOrigin (fun ys => (sparseEncode (pyNe i2fNative) d ys).values)
+        (fun vs => (sparseDecode d { e with values := vs }).getD []) g h 1
+      pure [.list r.1, .list r.2.1, .list r.2.2]
+    | _ => none
   | "func", [v, .int n] => do
     if n < 0 then none
     let out := functionExpand (fun (_ : Unit) => v) () n.toNat
